@@ -8,7 +8,7 @@ from __future__ import annotations
 
 from typing import Any, Dict, List, Optional
 
-from ..kit import caller_ok, Ctx, calls, calls_target, kw, loops, nf_cmp, normal_paths, poly_of, rule, short, stores
+from ..kit import iter_source, caller_ok, Ctx, calls, calls_target, kw, loops, nf_cmp, normal_paths, poly_of, rule, short, stores
 from ..paths import Event, Path
 from ..terms import NONE, Term, Unrecognised, cmp_nf, key, strip_ver, subterms
 from .c15 import _sub_ref
@@ -215,7 +215,7 @@ def r3(ctx: Ctx) -> None:
     hooks, _ = declared_hooks(ctx, THR)
     g = ctx.func(f"{THR}.hook_registration")
     mh = [h for h in hooks if h.hook_type == "market"]
-    ok = len(mh) == 1 and mh[0].is_before is True and mh[0].in_loop is not None and key(strip_ver(mh[0].in_loop.iter)) == "self.target_markets.values()" and mh[0].returned and mh[0].time in (None, NONE)
+    ok = len(mh) == 1 and mh[0].is_before is True and mh[0].in_loop is not None and key(iter_source(mh[0].in_loop.iter)) == "self.target_markets.values()" and mh[0].returned and mh[0].time in (None, NONE)
     ctx.check(ok, g, g.node, "one step-begin hook per target market, at all times", "for m in targets: EventHook(self, 'market', True, specific_instance=m)", f"{len(mh)} market hook construction(s), returned={[h.returned for h in mh]}")
 
 
